@@ -108,6 +108,13 @@ def check_cfg(ctx, fx, cfg):
         ctx.require(ok, "R13.5", inst + ":polls-both-sources", "each iteration must poll exactly the attached stream and the mailbox", fn=f["def"], site=nexts[0][1]["l"] if nexts else f["loc"])
         # R13.2
         sh = [(bi, t) for bi, t in b.normal_calls() if nfa.trait_method(loops.T_SH, "handle")(t)]
+        b_plain = b
+        if not sh:
+            # the handler call may sit in a private async helper the loop awaits with the selected item
+            # (`on_stream_item(stream_msg, &mut actor, &mut self.ctx).await`): judged with it inlined
+            import inline
+            b = inline.body(ctx, fx, f, inline.not_public)
+            sh = [(bi, t) for bi, t in b.normal_calls() if nfa.trait_method(loops.T_SH, "handle")(t)]
         if ctx.require(len(sh) == 1, "R13.2", inst + ":one-item-handler-site", "expected exactly one StreamHandler::handle site", fn=f["def"], site=f["loc"]):
             bi, t = sh[0]
             rs = b.origins(t["args"][2])
@@ -117,6 +124,7 @@ def check_cfg(ctx, fx, cfg):
             a_idx = [i for i, u in enumerate(up) if u == "A"]
             c_idx = [i for i, u in enumerate(up) if u.startswith("context::Context<")]
             ok2 = a_idx and c_idx and all(r.kind == "upvar" and r.site == a_idx[0] for r in ar) and all(r.kind == "upvar" and r.site == c_idx[0] for r in cr)
+            b = b_plain
             ctx.require(ok and ok2, "R13.2", inst + ":item-from-select", "the item handled must be the one the select produced in this iteration, handled by the loop's actor with its context: item origins %s" % sorted(map(str, rs)), fn=f["def"], site=t["l"])
         # R13.3
         nested = loops.loop_family(fx, f)[1:]
